@@ -120,6 +120,51 @@ def build_mesh(v, info=None):
     return m
 
 
+class TagDropped(Exception):
+    """The library dropped the tag on the way (documented: 'named boundaries invalidated'): nothing to observe."""
+
+
+def reftag_basis(v, elemname, order):
+    """The region of v (cells or facets of the ORIGINAL mesh, without repetitions) is attached to the original mesh as
+    a tag; the mesh then goes through the library's refinement operations v['reftag'] (refined(k) in one call, refined
+    twice, adaptive steps, restrict -> refine); the basis integrates over the tag on the final mesh.  Returned with
+    the geometry of the ORIGINAL region, over which the closed form is taken."""
+    from skfem import Basis, FacetBasis
+    kind = v['kind']
+    kw = {'sort_t': False} if kind == 'tri' else {}
+    m0 = U.make(kind, v['p'], v['t'], **kw)
+    reg = v['region']
+    if reg['dom'] == 'cells':
+        cells = sorted(set(int(c) for c in reg['cells']))
+        m = m0.with_subdomains({'r': np.array(cells, dtype=np.int32)})
+        ents = ids(m0.t[:NV[kind], cells])
+    else:
+        find = sorted(set(facet_ids(m0, reg['fverts'])))
+        m = m0.with_boundaries({'b': np.array(find, dtype=np.int32)})
+        ents = ids(m0.facets[:, find])
+    for op in v['reftag']:
+        if op[0] == 'refined':
+            m = m.refined(int(op[1]))
+        elif op[0] == 'adaptive':
+            m = m.refined(np.array(op[1], dtype=np.int64))
+        elif op[0] == 'restrict':
+            m = m.restrict(np.array(op[1], dtype=np.int64))
+        else:
+            raise MachineryError('unknown refinement op')
+    e = elem_of(elemname)
+    kwb = {} if order is None else {'intorder': int(order)}
+    if reg['dom'] == 'cells':
+        if not m.subdomains or 'r' not in m.subdomains:
+            raise TagDropped()
+        basis = Basis(m, e, elements='r', **kwb)
+    else:
+        if not m.boundaries or 'b' not in m.boundaries:
+            raise TagDropped()
+        basis = FacetBasis(m, e, facets='b', **kwb)
+    pts = [[int(x) for x in col] for col in np.rint(np.asarray(m0.p)).T]
+    return basis, pts, ents
+
+
 def facet_ids(mesh, fverts):
     """ids of the facets with the given vertex sets (fverts: list of vertex-id lists, 0-based)."""
     key = {tuple(sorted(set(int(x) for x in col))): j for j, col in enumerate(mesh.facets.T)}
@@ -161,7 +206,8 @@ def make_basis(mesh, v, elemname, order):
         return b, None
     find = facet_ids(mesh, reg['fverts'])
     if mode == 'array':
-        return FacetBasis(mesh, e, facets=np.array(find, dtype=dt), **kw), find
+        # side = 1: the traces are taken from the second neighbour (interior facets only); same facets, same measure
+        return FacetBasis(mesh, e, facets=np.array(find, dtype=dt), side=int(reg.get('side', 0)), **kw), find
     if mode == 'tag':
         m2 = mesh if v.get('moves') else mesh.with_boundaries({'b': np.array(find, dtype=dt)})
         return FacetBasis(m2, e, facets='b', **kw), find
@@ -233,8 +279,14 @@ def exec_integrate(rec, v, mesh=None):
     info = {}
 
     def call():
-        msh = mesh if mesh is not None else build_mesh(v, info)
         elemname = rec.get('elem') or DEFAULT_ELEM[kind]
+        if v.get('reftag'):
+            basis, pts, ents = reftag_basis(v, elemname, rec.get('order'))
+            val = monomial_functional(v['alpha']).assemble(basis)
+            ev.update(p=pts, scale=1, ents=ents, val=fx_req(float(val)),
+                      order=int(rec['order']) if rec.get('order') is not None else 2 * int(basis.elem.maxdeg))
+            return
+        msh = mesh if mesh is not None else build_mesh(v, info)
         basis, req = make_basis(msh, v, elemname, rec.get('order'))
         return _integrate_on(msh, basis, req)
 
@@ -250,6 +302,8 @@ def exec_integrate(rec, v, mesh=None):
             el = np.asarray(F.elemental(basis), dtype=np.float64)
             ev['evals'] = [fx_req(float(el[j])) for j in order]
     _, err = guarded(call, 60)
+    if err == 'TagDropped':
+        return None
     if err:
         ev['err'] = err
     return ev
@@ -294,10 +348,14 @@ def exec_masssum(rec, v):
 
     def call():
         info = {}
-        mesh = build_mesh(v, info)
-        basis, req = make_basis(mesh, v, rec['elem'], rec.get('order'))
-        p, sc, ents, _, idl = geometry(mesh, kind, basis, req, ev['dom'], info.get('P'))
-        ev.update(idl)
+        if v.get('reftag'):
+            basis, p, ents = reftag_basis(v, rec['elem'], rec.get('order'))
+            sc = 1
+        else:
+            mesh = build_mesh(v, info)
+            basis, req = make_basis(mesh, v, rec['elem'], rec.get('order'))
+            p, sc, ents, _, idl = geometry(mesh, kind, basis, req, ev['dom'], info.get('P'))
+            ev.update(idl)
         how = v.get('how') or rec.get('how') or 'assemble'
         ev['tags'] = {'how': how}
         M = assemble_by(lambda u, w, _: u * w, basis, how)
@@ -305,6 +363,8 @@ def exec_masssum(rec, v):
         tot = sum((fr(x) for x in np.asarray(data, dtype=np.float64).ravel()), Fraction(0))   # exact sum of all entries
         ev.update(p=p, scale=sc, ents=ents, val=fx_req(tot))
     _, err = guarded(call, 60)
+    if err == 'TagDropped':
+        return None
     if err:
         ev['err'] = err
     return ev
@@ -357,7 +417,46 @@ def exec_entries(rec, v):
     return ev
 
 
-EXEC = {'integrate': exec_integrate, 'masssum': exec_masssum, 'entries': exec_entries}
+TENSOR_DEG = {'ElementQuad1': 1, 'ElementQuad2': 2, 'ElementHex1': 1}
+
+
+def exec_entries_t(rec, v):
+    """Mass matrix / load vector of a tensor-product Lagrange element on straight non-affine cells, DEFAULT order."""
+    kind = rec['kind']
+    ev = dict(BASE_EV, a='EntriesT', kind=kind, dom='cells', scale=1, p=[], ents=[], form=rec['form'], deg=0, N=0,
+              edofs=[], lnodes=[], vals=[], rel=v['rel'], sgn=1, elem=rec['elem'])
+
+    def call():
+        from skfem import Basis
+        info = {}
+        mesh = build_mesh(v, info)
+        e = elem_of(rec['elem'])
+        basis = Basis(mesh, e)                                  # no intorder: the element's default rule
+        p, sc, ents, _, _ = geometry(mesh, kind, basis, list(range(mesh.t.shape[1])), 'cells', info.get('P'))
+        deg = TENSOR_DEG[rec['elem']]
+        lnodes = []
+        for row in np.asarray(e.doflocs, dtype=np.float64):
+            r = [fr(x) * deg for x in row]
+            if any(x.denominator != 1 for x in r):
+                raise ValueError('reference node not on the tensor Lagrange lattice')
+            lnodes.append([int(x) for x in r])
+        how = v.get('how') or rec.get('how') or 'assemble'
+        ev['tags'] = {'how': how}
+        N = int(basis.N)
+        if rec['form'] == 'mass':
+            A = dense(assemble_by(lambda u, w, _: u * w, basis, how))
+            vals = [[i + 1, j + 1] + fx_req(float(A[i, j])) for i in range(N) for j in range(N)]
+        else:
+            A = dense(assemble_by(lambda w, _: 1.0 * w, basis, how, linear=True)).ravel()
+            vals = [[i + 1, 0] + fx_req(float(A[i])) for i in range(N)]
+        ev.update(p=p, scale=sc, ents=ents, deg=deg, N=N, edofs=ids(basis.element_dofs), lnodes=lnodes, vals=vals)
+    _, err = guarded(call, 60)
+    if err:
+        ev['err'] = err
+    return ev
+
+
+EXEC = {'integrate': exec_integrate, 'masssum': exec_masssum, 'entries': exec_entries, 'entries_t': exec_entries_t}
 
 
 def execute(rec):
@@ -379,7 +478,7 @@ def execute(rec):
             ev['rel'] = 'none'
             out.append(ev)
         return out
-    return [EXEC[rec['driver']](rec, v) for v in rec['variants']]
+    return [ev for ev in (EXEC[rec['driver']](rec, v) for v in rec['variants']) if ev is not None]
 
 
 def scenario(sid, rec):
@@ -553,13 +652,11 @@ def moved_variant(v, rng, oracle='cells', int_only=False):
         n = q + d
         if oracle == 'sq':                 # bounds of the per-facet square oracle (32-bit safe limb arithmetic)
             for f in v['region']['fverts']:
-                pts = [np.array([int(P[c][i]) for c in range(d)]) for i in f]
-                if len(pts) == 2:
-                    j2 = int(((pts[1] - pts[0]) ** 2).sum())
-                else:
-                    cr = np.cross(pts[1] - pts[0], pts[-1] - pts[0])
-                    j2 = int((cr ** 2).sum())
-                if j2 > 32768 or (max(int(M), 1) ** q) ** 2 * j2 > 2 ** 24:
+                fj = facet_jac([np.array([int(P[c][i]) for c in range(d)]) for i in f])
+                if fj is None:
+                    return False
+                j2, gs = fj
+                if j2 > 32768 or sum(gs) > 1024 or (max(int(M), 1) ** q) ** 2 * sum(gs) ** 2 * j2 > 2 ** 24:
                     return False
         return M <= 64 and max(int(M), 1) ** n < 2 ** 24 and den ** (2 * n) <= 65536 and (den == 1 or not exact_only)
 
@@ -578,6 +675,44 @@ def moved_variant(v, rng, oracle='cells', int_only=False):
     if box is not None:
         w['box'] = [[int(x) for x in side] for side in box]
     return w
+
+
+def reftag_variants(v, rng, n=2):
+    """The region as a TAG carried through the library's refinement: refined(2) in one call (always), and one more
+    history out of refined().refined(), refined(1), refined(2).refined(1), restrict -> refined, adaptive steps."""
+    kind = v['kind']
+    reg = v['region']
+    if v.get('second') or kind == 'wedge' or reg['mode'] not in ('tag', 'array'):
+        return []
+    d = DIM[kind]
+    nt = np.asarray(v['t']).shape[1]
+    if reg['dom'] == 'cells':
+        cells = [int(c) for c in reg['cells']]
+        if len(set(cells)) != len(cells):
+            return []
+    else:
+        if kind not in ('line', 'tri', 'quad'):          # 3-D refinement drops named boundaries
+            return []
+        if len({tuple(sorted(f)) for f in reg['fverts']}) != len(reg['fverts']):
+            return []
+    small = nt * (2 ** d) ** 2 <= 1600
+    hist = []
+    if small:
+        hist.append([['refined', 2]])
+    more = [[['refined', 1], ['refined', 1]], [['refined', 1]]] if small else [[['refined', 1]]]
+    if small and d <= 2:
+        more.append([['refined', 2], ['refined', 1]])
+    if reg['dom'] == 'cells' and nt >= 3:
+        keep = sorted(set(cells) | {int(c) for c in rng.choice(nt, max(1, nt // 2), replace=False)})
+        if len(keep) < nt:
+            # restrict renumbers the cells; the tag travels with them
+            more.append([['restrict', keep], ['refined', 1]])
+    if kind == 'tri' and reg['dom'] == 'cells':
+        more.append([['adaptive', [int(c) for c in rng.choice(nt, max(1, nt // 3), replace=False)]]])
+        more.append([['adaptive', [int(rng.integers(0, nt))]], ['refined', 1]])
+    for j in rng.permutation(len(more))[:max(0, n - len(hist))]:
+        hist.append(more[int(j)])
+    return [dict(v, reftag=h, rel='refine', sgn=1) for h in hist]
 
 
 def refine_variant(v):
@@ -615,23 +750,42 @@ def all_facets_of(kind, p, t):
     return m, [[int(x) for x in col] for col in m.facets.T]
 
 
-def jacsq_is_square(P, f):
-    """input selection only: the facet has a rational measure (exact integer arithmetic)."""
-    from math import isqrt
-    v = [np.array([int(x) for x in P[:, i]]) for i in f]
+def facet_jac(v):
+    """input selection only (exact integer arithmetic): the simplices (1,2,3),(1,3,4) / the segment of a facet with
+    integer vertices v; returns (|n0|^2, [g_s]) with Jacobian vectors c_s = g_s * n0, n0 primitive -- or None if the
+    facet is not flat and convex."""
+    from math import gcd
     if len(v) == 1:
-        return True
+        return 1, [1]
     if len(v) == 2:
-        q = int(((v[1] - v[0]) ** 2).sum())
+        cs = [v[1] - v[0]]
+    elif len(v[0]) == 2:
+        return 1, [1]
     else:
-        a, b = v[1] - v[0], v[2] - v[0]
-        if len(a) == 2:
-            return True
-        c = np.cross(a, b)
-        q = int((c ** 2).sum())
-        if len(v) == 4 and not np.array_equal(v[2], v[1] + v[3] - v[0]):
-            return False
-    return q > 0 and isqrt(q) ** 2 == q
+        tris = [(0, 1, 2)] if len(v) == 3 else [(0, 1, 2), (0, 2, 3)]
+        cs = [np.cross(v[b] - v[a], v[c] - v[a]) for a, b, c in tris]
+        if len(v) == 4:
+            for a, b, c in ((0, 1, 3), (1, 2, 3)):
+                cc = np.cross(v[b] - v[a], v[c] - v[a])
+                if np.any(np.cross(cs[0], cc)) or int(np.dot(cs[0], cc)) <= 0:
+                    return None
+    gs = [gcd(*[abs(int(x)) for x in c]) for c in cs]
+    if 0 in gs:
+        return None
+    n0 = cs[0] // gs[0]
+    if any(not np.array_equal(c, g * n0) for c, g in zip(cs, gs)):
+        return None
+    return int((n0 ** 2).sum()), gs
+
+
+def jacsq_is_square(P, f):
+    """input selection only: every simplex of the (flat) facet has a rational measure."""
+    from math import isqrt
+    fj = facet_jac([np.array([int(x) for x in P[:, i]]) for i in f])
+    if fj is None:
+        return False
+    j2, gs = fj
+    return isqrt(j2) ** 2 == j2
 
 
 def multi_parts(n, rng, key):
@@ -681,6 +835,8 @@ def with_variants(v, rng, nnum=1, nmot=1, refine=False, translate=False, oracle=
     for _ in range(nmot):
         vs.append(motion_variant(v, rng, translate=translate))
     vs.append(moved_variant(v, rng, oracle=oracle))                  # used, then moved by the library
+    if oracle != 'sq':
+        vs += reftag_variants(v, rng)                                # the region as a tag through refined(k), ...
     if refine and v['region']['mode'] in ('all', 'boundary') and v['kind'] != 'wedge':
         vs.append(refine_variant(v))
     return vs
@@ -796,7 +952,7 @@ def gen_integrate(tier, rng):
     # ---- facets
     frecs = []
 
-    def addf(kind, fam, p, t, degs, nsub=2, refine=True):
+    def addf(kind, fam, p, t, degs, nsub=2, refine=True, extra=0):
         m, F = all_facets_of(kind, p, t)
         P = np.asarray(m.p)
         ok = [f for f in F if jacsq_is_square(P, f)]
@@ -822,6 +978,9 @@ def gen_integrate(tier, rng):
                     [F[i] for i in rng.permutation(nf)[:max(1, nf // 2)]]]
         for j, sel in enumerate(listings):
             regs.append(({'dom': 'facets', 'mode': 'array', 'fverts': sel, 'dtype': ('int32', 'int64')[j % 2]}, orc))
+        if inter:                                  # the same interior facets seen from their second neighbour
+            regs.append(({'dom': 'facets', 'mode': 'array', 'fverts': [inter[i] for i in rng.permutation(len(inter))],
+                          'side': 1}, orc))
         parts, container, union = multi_parts(nf, rng, 'ix')
         parts = [{'as': pt['as'], 'fverts': [F[i] for i in pt['ix']]} for pt in parts]
         regs.append(({'dom': 'facets', 'mode': 'multi', 'parts': parts, 'container': container,
@@ -835,7 +994,7 @@ def gen_integrate(tier, rng):
                 alpha = mons[int(rng.integers(len(mons)))]
                 v = base_variant(kind, p, t, reg, alpha)
                 frecs.append(rec_integrate(kind, fam, with_variants(v, rng, 1, 1, refine and oracle == 'cells',
-                                                                    oracle=oracle), oracle, q, None))
+                                                                    oracle=oracle), oracle, q + extra, None))
 
     p, t = U.line_points([0, 1, 3, 4])
     addf('line', 'U1-facets', p, t, (0, 1, 3), refine=False)
@@ -863,6 +1022,11 @@ def gen_integrate(tier, rng):
         addf('tet', 'U3t-345-facets', p * np.array(sc)[:, None], t, (0, 1, 2), nsub=2, refine=False)
     p, t = U.hex_grid(2, 1, 1)
     addf('hex', 'U3h-facets', p, t, (0, 1, 2, 3))
+    # hexahedra whose faces are flat but not parallelograms: a prism over a trapezoid (two cells stacked along the axis,
+    # the common face is the trapezoid) and a frustum of a pyramid (slanted trapezoidal side faces); the surface
+    # Jacobian of such a face is linear in each direction: one more degree of exactness is needed (extra=1)
+    for fam_, (ph, th) in (('hex-trapezoid-prism-facets', hex_trapezoid_prism()), ('hex-frustum-facets', hex_frustum())):
+        addf('hex', fam_, ph, th, (0, 1, 2), nsub=2, refine=False, extra=1)
     return recs + frecs
 
 
@@ -880,7 +1044,7 @@ def gen_masssum(tier, rng):
             for reg in regs:
                 v = base_variant(kind, p, t, reg, [0] * DIM[kind], second=second)
                 vs = [v, numbering_variant(v, rng, flip=not second), motion_variant(v, rng, translate=True),
-                      moved_variant(v, rng, int_only=bool(second))]
+                      moved_variant(v, rng, int_only=bool(second))] + reftag_variants(v, rng, n=1)
                 if reg['mode'] in ('all', 'boundary') and kind != 'wedge' and not second:
                     vs.append(refine_variant(v))
                 # every way of assembling the same form must give the same numbers: one route per variant, all routes
@@ -972,6 +1136,59 @@ def gen_entries(tier, rng):
     return recs
 
 
+def hex_trapezoid_prism():
+    """two hexahedra stacked in z over the trapezoid (0,0),(4,0),(3,2),(1,2); z = 0, 2, 3."""
+    P, T = U.hex_grid(1, 1, 2)
+    xy = {(0, 0): (0, 0), (1, 0): (4, 0), (1, 1): (3, 2), (0, 1): (1, 2)}
+    zs = [0, 2, 3]
+    Q = np.array([[xy[(int(a), int(b))][0], xy[(int(a), int(b))][1], zs[int(c)]] for a, b, c in P.T]).T
+    return Q, T
+
+
+def hex_frustum():
+    """two hexahedra: the frustum of a pyramid over the square [0,6]^2 cut at z = 0, 2, 4 (half widths 3, 2, 1)."""
+    P, T = U.hex_grid(1, 1, 2)
+    w = [3, 2, 1]
+    Q = np.array([[3 + (2 * int(a) - 1) * w[int(c)], 3 + (2 * int(b) - 1) * w[int(c)], 2 * int(c)] for a, b, c in P.T]).T
+    return Q, T
+
+
+def gen_entries_t(tier, rng):
+    """Entry-wise exact mass / load of Q1, Q2 (quadrilaterals) and Q1 (hexahedra) with the DEFAULT integration order on
+    general convex quadrilaterals and on hexahedra tapered in one and in two directions (det DF not constant)."""
+    recs = []
+    route = [int(rng.integers(0, len(ROUTES)))]
+
+    def add(kind, fam, p, t, elems, forms=('mass', 'load'), renumber=True):
+        for en in elems:
+            for form in forms:
+                v = base_variant(kind, p, t, {'dom': 'cells', 'mode': 'all'}, [0] * DIM[kind])
+                vs = [v] + ([numbering_variant(v, rng, flip=False)] if renumber else [])
+                for w in vs:
+                    w['how'] = ROUTES[route[0] % len(ROUTES)]
+                    route[0] += 1
+                recs.append({'driver': 'entries_t', 'kind': kind, 'family': fam, 'variants': vs, 'elem': en, 'form': form})
+
+    pj, tj = U.quad_grid(2, 2, jiggle=[(4, 0.25, 0.5)])
+    add('quad', 'U2q-jiggled', pj * 4, tj, ['ElementQuad1', 'ElementQuad2'])
+    add('quad', 'U2q-trapezoid', np.array([[0, 6, 8, -2, 3, 7, 3, -1, 3], [0, 1, 6, 5, 0, 3, 6, 2, 3]]),
+        np.array([[0, 4, 8, 7], [4, 1, 5, 8], [8, 5, 2, 6], [7, 8, 6, 3]]).T, ['ElementQuad1', 'ElementQuad2'])
+    ps, ts = U.quad_grid(2, 1)
+    ps = ps.copy()
+    ps[0] += ps[1]
+    add('quad', 'U2q-sheared', ps, ts, ['ElementQuad1'], renumber=False)
+    ph, th = hex_frustum()                        # tapered in two directions: det DF of degree 2 in the axial direction
+    add('hex', 'hex-frustum', ph, th, ['ElementHex1'], renumber=False)
+    ph, th = hex_trapezoid_prism()                # tapered in one direction
+    add('hex', 'hex-trapezoid-prism', ph[:, :8], th[:, :1], ['ElementHex1'], forms=('mass',), renumber=False)
+    if tier == 'thorough':
+        ph, th = hex_frustum()
+        add('hex', 'hex-frustum', ph, th, ['ElementHex1'])
+        ph, th = U.hex_grid(1, 1, 1)
+        add('hex', 'U3h', ph * 2, th, ['ElementHex1'])
+    return recs
+
+
 def graded_axis(n, rng, total):
     """n + 1 increasing integers from 0: steps of 1 and 2 in random order (a non-uniform tensor grid)."""
     twos = max(0, min(n, total - n))
@@ -1050,6 +1267,7 @@ def generate(tier, seed):
     for k in range(rounds[2]):
         out += gen_entries(tier, np.random.default_rng(seed + 4 + 1000 * k))
     out += gen_sequence(tier, np.random.default_rng(seed + 5))
+    out += gen_entries_t(tier, np.random.default_rng(seed + 6))
     return out
 
 
